@@ -89,17 +89,57 @@ std::string bytes_of(const json &j)
 std::string source_text(const json &src)
 {
 	std::string t;
+	// faults attached to the source, expressed relative to chunk / token so that shrinking keeps their meaning:
+	//   "mut":   [chunk, token, replacement]  the token's bytes are replaced (F-tok)
+	//   "cutat": [chunk, token, offset]       the source ends 'offset' bytes after the start of that token (F-cut)
+	//   "cut":   n                            the source ends after n bytes
+	long cut = -1;
 	if (src.contains("chunks")) {
-		for (auto &c : src["chunks"])
-			t += from_json_bytes(c["t"].get<std::string>());
+		const json &cs = src["chunks"];
+		long mc = -1, mt = -1, cc = -1, ct = -1, coff = 0;
+		std::string repl;
+		if (src.contains("mut")) {
+			mc = src["mut"][0].get<long>();
+			mt = src["mut"][1].get<long>();
+			repl = from_json_bytes(src["mut"][2].get<std::string>());
+		}
+		if (src.contains("cutat")) {
+			cc = src["cutat"][0].get<long>();
+			ct = src["cutat"][1].get<long>();
+			coff = src["cutat"][2].get<long>();
+		}
+		for (long i = 0; i < (long)cs.size(); i++) {
+			std::string ct_text = from_json_bytes(cs[i]["t"].get<std::string>());
+			size_t base = t.size();
+			bool mutated = false;
+			size_t ms = 0, me = 0;
+			if (i == mc && cs[i].contains("toks") && mt >= 0 && mt < (long)cs[i]["toks"].size()) {
+				ms = cs[i]["toks"][mt][0].get<size_t>();
+				me = cs[i]["toks"][mt][1].get<size_t>();
+				if (ms <= me && me <= ct_text.size())
+					mutated = true;
+			}
+			if (i == cc && cs[i].contains("toks") && ct >= 0 && ct < (long)cs[i]["toks"].size()) {
+				long pos = (long)cs[i]["toks"][ct][0].get<size_t>() + coff;
+				if (mutated && (size_t)pos > ms) // positions after the mutated token shift
+					pos += (long)repl.size() - (long)(me - ms);
+				if (pos < 0)
+					pos = 0;
+				cut = (long)base + pos;
+			}
+			if (mutated)
+				ct_text = ct_text.substr(0, ms) + repl + ct_text.substr(me);
+			t += ct_text;
+		}
+		if (src.contains("cutat") && cut < 0)
+			cut = -2; // the fault names a token that no longer exists: keep the text whole
 	} else if (src.contains("text")) {
 		t = from_json_bytes(src["text"].get<std::string>());
 	}
-	if (src.contains("cut")) {
-		long cut = src["cut"].get<long>();
-		if (cut >= 0 && (size_t)cut < t.size())
-			t.resize(cut);
-	}
+	if (src.contains("cut"))
+		cut = src["cut"].get<long>();
+	if (cut >= 0 && (size_t)cut < t.size())
+		t.resize(cut);
 	return t;
 }
 
@@ -239,7 +279,7 @@ static int sim_parsecb(cfg_t *cfg, cfg_opt_t *opt, const char *value, void *resu
 	case CFGT_PTR: {
 		PtrObj *blk = (PtrObj *)::malloc(sizeof(PtrObj));
 		blk->id = E->next_ptr_id++;
-		blk->released = 0;
+		blk->released = opt->freecb ? 0 : -1000; // without a release function nothing can be handed back
 		snprintf(blk->val, sizeof blk->val, "%s", esc(v).c_str());
 		E->ptrs[blk] = *blk;
 		*(void **)result = blk;
@@ -439,7 +479,7 @@ static std::string value_repr(cfg_opt_t *opt, unsigned i)
 		auto it = E->ptrs.find(p);
 		if (it == E->ptrs.end())
 			return "ptr(?)";
-		return std::string("obj(") + it->second.val + ")" + (it->second.released ? "!released" : "");
+		return std::string("obj(") + it->second.val + ")" + (it->second.released > 0 ? "!released" : "");
 	}
 	case CFGT_SEC: {
 		cfg_t *sec = cfg_opt_getnsec(opt, i);
@@ -1003,7 +1043,7 @@ RunResult execute(const json &plan, const ExecOpts &opts)
 		if (!W.lib_open.empty())
 			ex.res.conservation.push_back("stream-leak x" + std::to_string(W.lib_open.size()));
 		for (auto &kv : ex.ptrs)
-			if (kv.second.released != 1)
+			if (kv.second.released != 1 && kv.second.released > -500)
 				ex.res.conservation.push_back(std::string("ptr-release released=") + std::to_string(kv.second.released) + " x1 obj(" + kv.second.val + ")");
 		if (cfg_include_stack_ptr != 0)
 			ex.res.conservation.push_back("include-stack=" + std::to_string(cfg_include_stack_ptr));
